@@ -75,6 +75,26 @@ pub fn special_images(v: &dyn Var, rng: &mut Rng) -> Vec<Vec<u8>> {
         out.push(a);
         out.push(b);
     }
+    // coinciding fields: two header bytes equal, all header bytes equal, header bytes repeated in the body
+    for i in 0..hdr {
+        for j in (i + 1)..hdr {
+            let mut a = image(v, rng);
+            let x = 1 + rng.below(48) as u8;
+            a[i] = x;
+            a[j] = x;
+            out.push(a);
+        }
+    }
+    {
+        let mut a = image(v, rng);
+        let x = 1 + rng.below(48) as u8;
+        for q in 0..hdr {
+            a[q] = x;
+        }
+        a[hdr] = x;
+        a[n - 1] = x;
+        out.push(a);
+    }
     // uniform images (every byte the same) with unequal nibbles
     for x in [0x1bu8, 0xe4, 0x5a, 0x07, rng.byte()] {
         let mut u = vec![x; n];
